@@ -37,6 +37,7 @@ type verifCacheOp struct {
 	Dbf  bool    `json:"dbf"`
 	Dbf2 bool    `json:"dbf2"`
 	Flip bool    `json:"flip"`
+	Cut  int     `json:"cut"`
 	D    int     `json:"d"`
 	E    int     `json:"e"`
 	Ks   []int   `json:"ks"`
@@ -47,7 +48,8 @@ type verifCacheOp struct {
 
 type verifCacheTable struct {
 	mu   sync.Mutex
-	rows map[int]cache.VerifCacheRow // primary id -> row; Name: the unique column (-1: none)
+	base int                         // the row of primary key number p has id base + p
+	rows map[int]cache.VerifCacheRow // primary key number -> row; Name: the unique column (-1: none)
 }
 
 func (t *verifCacheTable) clone() map[int]cache.VerifCacheRow {
@@ -73,6 +75,7 @@ type verifCacheConn struct {
 	onQuery      func() // called inside every query (gates, store flips)
 	nRow, nIdx   int
 	inTx         bool
+	w            *cache.VerifCacheWorld
 }
 
 func (c *verifCacheConn) QueryRow(v any, q string, args ...any) error {
@@ -89,6 +92,9 @@ func (c *verifCacheConn) QueryRowCtx(_ context.Context, v any, q string, args ..
 	fail := (q == "row" && c.failRow) || (q == "idx" && c.failIdx)
 	hook := c.onQuery
 	c.t.mu.Unlock()
+	if c.w != nil {
+		c.w.NoteQuery()
+	}
 	if hook != nil {
 		hook()
 	}
@@ -99,8 +105,8 @@ func (c *verifCacheConn) QueryRowCtx(_ context.Context, v any, q string, args ..
 	defer c.t.mu.Unlock()
 	arg := args[0].(int)
 	switch q {
-	case "row":
-		if r, ok := c.t.rows[arg]; ok {
+	case "row": // by id
+		if r, ok := c.t.rows[arg-c.t.base]; ok && r.Id == arg {
 			*v.(*cache.VerifCacheRow) = r
 			return nil
 		}
@@ -164,7 +170,13 @@ type verifCacheSqlH struct {
 	rnd    *rand.Rand
 	kfOK   bool
 	dirty  map[int]bool
+	base   int  // ids of the rows of the next history: base + key number (0, beyond 2^53, near the top of int64)
+	clus   bool // the next history runs on a cluster-type redis client
+	cut    int  // > 0: during the next read / write the store goes down at its cut-th command
 }
+
+// id magnitudes: small, beyond 2^53 (not representable in a float64: 2^53+1 rounds to 2^53), near MaxInt64
+var verifCacheIdBases = []int{0, 1<<53 + 1, 1<<63 - 64}
 
 var verifCacheEmitter *verifEmitter
 
@@ -211,10 +223,12 @@ func (h *verifCacheSqlH) begin(np, ni, expDs, nfDs int) {
 		e, nf = 7*24*3600*10, 600
 	}
 	h.np, h.ni, h.expDs, h.nfDs = np, ni, e, nf
-	h.tab = &verifCacheTable{rows: make(map[int]cache.VerifCacheRow)}
-	h.conn = &verifCacheConn{t: h.tab}
+	h.tab = &verifCacheTable{rows: make(map[int]cache.VerifCacheRow), base: h.base}
+	h.conn = &verifCacheConn{t: h.tab, w: h.w}
 	h.dirty = make(map[int]bool)
-	h.ver = 0
+	h.ver, h.cut = 0, 0
+	h.w.IdBase = int64(h.base)
+	h.w.UseCluster(h.clus)
 	h.w.Begin(np, ni, e, nf, h.kfOK)
 	h.cc = NewNodeConn(h.conn, h.w.R, opts...)
 }
@@ -229,10 +243,19 @@ func (h *verifCacheSqlH) content(k int) int {
 	}
 	for _, r := range h.tab.rows {
 		if r.Name == k-h.np {
-			return r.Id
+			return r.Id - h.base
 		}
 	}
 	return -1
+}
+
+// pnum: the primary key number behind what QueryRowIndex hands to the keyer / the primary query (-7: none)
+func (h *verifCacheSqlH) pnum(primary any) int {
+	id := verifCacheInt(primary)
+	if id == -7 || id-h.base < 0 || id-h.base >= h.np {
+		return -7
+	}
+	return id - h.base
 }
 
 func verifCacheInt(primary any) int {
@@ -280,19 +303,25 @@ func (h *verifCacheSqlH) disarm() {
 
 // take: QueryRow / QueryRowCtx on primary key k
 func (h *verifCacheSqlH) take(k int, dbf, flip bool, api int) {
+	arm := h.cut
+	h.cut = 0
 	h.settle(k)
 	flipped := h.arm(dbf, false, flip)
+	if arm > 0 && !flip {
+		h.w.ArmCut(arm)
+	}
 	var row cache.VerifCacheRow
 	var err error
 	if api%2 == 0 {
 		err = h.cc.QueryRow(&row, h.w.Key(k), func(conn sqlx.SqlConn, v any) error {
-			return conn.QueryRow(v, "row", k)
+			return conn.QueryRow(v, "row", h.base+k)
 		})
 	} else {
 		err = h.cc.QueryRowCtx(context.Background(), &row, h.w.Key(k), func(ctx context.Context, conn sqlx.SqlConn, v any) error {
-			return conn.QueryRowCtx(ctx, v, "row", k)
+			return conn.QueryRowCtx(ctx, v, "row", h.base+k)
 		})
 	}
+	cut, qa := h.w.EndCut()
 	nq := h.conn.nRow
 	h.disarm()
 	r, v := verifCacheClass(err), 0
@@ -300,25 +329,24 @@ func (h *verifCacheSqlH) take(k int, dbf, flip bool, api int) {
 		v = row.Ver
 	}
 	h.w.Ev(map[string]any{"e": "take", "k": k, "r": r, "v": v, "nq": nq, "dbf": dbf, "flip": *flipped, "api": "QueryRow",
-		"msg": verifCacheMsg(err)})
+		"cut": cut, "qa": qa, "msg": verifCacheMsg(err)})
 }
 
 // index: QueryRowIndex / QueryRowIndexCtx on index key i
 func (h *verifCacheSqlH) index(i int, dbfi, dbfp, flip bool, api int) {
+	arm := h.cut
+	h.cut = 0
 	all := []int{i}
 	for p := 0; p < h.np; p++ {
 		all = append(all, p)
 	}
 	h.settle(all...)
 	flipped := h.arm(dbfp, dbfi, flip)
-	name := i - h.np
-	keyer := func(primary any) string {
-		p := verifCacheInt(primary)
-		if p < 0 || p >= h.np {
-			return "verif-unknown-primary:" + fmt.Sprint(primary)
-		}
-		return h.w.Key(p)
+	if arm > 0 && !flip {
+		h.w.ArmCut(arm)
 	}
+	name := i - h.np
+	keyer := h.keyer
 	var row cache.VerifCacheRow
 	var err error
 	if api%2 == 0 {
@@ -344,6 +372,7 @@ func (h *verifCacheSqlH) index(i int, dbfi, dbfp, flip bool, api int) {
 				return conn.QueryRowCtx(ctx, v, "row", verifCacheInt(primary))
 			})
 	}
+	cut, qa := h.w.EndCut()
 	qi, qp := h.conn.nIdx, h.conn.nRow
 	h.disarm()
 	r, v := verifCacheClass(err), 0
@@ -351,7 +380,16 @@ func (h *verifCacheSqlH) index(i int, dbfi, dbfp, flip bool, api int) {
 		v = row.Ver
 	}
 	h.w.Ev(map[string]any{"e": "index", "k": i, "r": r, "v": v, "qi": qi, "qp": qp, "dbfi": dbfi, "dbfp": dbfp,
-		"flip": *flipped})
+		"flip": *flipped, "cut": cut, "qa": qa, "msg": verifCacheMsg(err)})
+}
+
+// keyer: the cache key of the row with the given primary id, the way goctl-generated models build it
+func (h *verifCacheSqlH) keyer(primary any) string {
+	p := h.pnum(primary)
+	if p < 0 {
+		return fmt.Sprintf("verif-unknown-primary:%v", primary)
+	}
+	return h.w.Key(p)
 }
 
 func (h *verifCacheSqlH) get(k int) {
@@ -365,21 +403,25 @@ func (h *verifCacheSqlH) get(k int) {
 	} else {
 		var p int
 		if err = h.cc.GetCacheCtx(context.Background(), h.w.Key(k), &p); err == nil {
-			v = p
+			v = p - h.base
 		}
 	}
 	h.w.Ev(map[string]any{"e": "get", "k": k, "r": verifCacheClass(err), "v": v})
 }
 
 func (h *verifCacheSqlH) set(k, v, eDs int) {
-	var val any = cache.VerifCacheRow{Id: k, Name: -1, Ver: v}
+	var val any = cache.VerifCacheRow{Id: h.base + k, Name: -1, Ver: v}
 	if k >= h.np {
-		val = v // an index entry holds the primary id
+		val = h.base + v // an index entry holds the primary id
 	} else if r, ok := h.tab.rows[k]; ok && r.Ver == v {
 		val = r
 	}
 	var err error
 	used := h.expDs
+	if arm := h.cut; arm > 0 {
+		h.cut = 0
+		h.w.ArmCut(arm)
+	}
 	switch {
 	case eDs > 0:
 		used = eDs
@@ -391,10 +433,11 @@ func (h *verifCacheSqlH) set(k, v, eDs int) {
 	default:
 		err = h.cc.SetCache(h.w.Key(k), val)
 	}
+	cut, _ := h.w.EndCut()
 	if err == nil {
 		delete(h.dirty, k)
 	}
-	h.w.Ev(map[string]any{"e": "set", "k": k, "v": v, "x": used, "r": verifCacheClass(err)})
+	h.w.Ev(map[string]any{"e": "set", "k": k, "v": v, "x": used, "r": verifCacheClass(err), "cut": cut})
 }
 
 func (h *verifCacheSqlH) noteDel(ks []int) {
@@ -425,7 +468,7 @@ func (h *verifCacheSqlH) mutate(rows map[int]cache.VerifCacheRow, muts [][]int) 
 		case k < h.np:
 			r, ok := rows[k]
 			if !ok {
-				r = cache.VerifCacheRow{Id: k, Name: -1}
+				r = cache.VerifCacheRow{Id: h.base + k, Name: -1}
 			}
 			r.Ver = v
 			rows[k] = r
@@ -447,6 +490,8 @@ func (h *verifCacheSqlH) mutate(rows map[int]cache.VerifCacheRow, muts [][]int) 
 // write: a database change through Exec (or a transaction followed by DelCache) with the keys whose
 // database content changes (+ extra); the event carries the change as the difference of content().
 func (h *verifCacheSqlH) write(muts [][]int, extra []int, dbf bool, via int) {
+	arm := h.cut
+	h.cut = 0
 	before := make([]int, h.np+h.ni)
 	for k := range before {
 		before[k] = h.content(k)
@@ -480,6 +525,9 @@ func (h *verifCacheSqlH) write(muts [][]int, extra []int, dbf bool, via int) {
 	apply := func(rows map[int]cache.VerifCacheRow) { h.mutate(rows, muts) }
 	h.conn.failExec = dbf
 	keys := h.w.Keys(ks)
+	if arm > 0 && !dbf {
+		h.w.ArmCut(arm)
+	}
 	var err error
 	vias := []string{"Exec", "ExecCtx", "Transact+DelCache", "Transact(WithSession.Exec)"}
 	switch via % 4 {
@@ -505,16 +553,22 @@ func (h *verifCacheSqlH) write(muts [][]int, extra []int, dbf bool, via int) {
 			return err
 		})
 	}
+	cut, _ := h.w.EndCut()
 	h.disarm()
 	if !dbf {
 		h.noteDel(ks)
 	} else {
 		upd = [][]int{}
 	}
-	h.w.Ev(map[string]any{"e": "write", "upd": upd, "ks": ks, "dbf": dbf, "r": verifCacheClass(err), "via": vias[via%4]})
+	h.w.Ev(map[string]any{"e": "write", "upd": upd, "ks": ks, "dbf": dbf, "r": verifCacheClass(err), "via": vias[via%4],
+		"cut": cut})
 }
 
 func (h *verifCacheSqlH) do(op verifCacheOp, api int) {
+	h.cut = 0
+	if op.Op == "take" || op.Op == "index" || op.Op == "write" || op.Op == "set" {
+		h.cut = op.Cut
+	}
 	switch op.Op {
 	case "take":
 		h.take(op.K, op.Dbf, op.Flip, api)
@@ -560,11 +614,24 @@ func TestVerifCacheSqlcReplay(t *testing.T) {
 		if err := json.Unmarshal(raw, &ops); err != nil {
 			t.Fatal(err)
 		}
-		h.begin(np, ni, verifEnvInt("VERIF_CACHE_EXP", 20), verifEnvInt("VERIF_CACHE_NF", 10))
-		for j, op := range ops {
-			h.do(op, i+j)
+		// the ids of the rows rotate over the magnitudes; a history with an invalidation naming several keys is also
+		// performed on a cluster-type client (one DEL - and one retry task - per key)
+		multi := false
+		for _, op := range ops {
+			multi = multi || (op.Op == "write" && len(op.Ks) > 1)
+		}
+		for typ := 0; typ < 2; typ++ {
+			if typ == 1 && !multi {
+				break
+			}
+			h.base, h.clus = verifCacheIdBases[i%len(verifCacheIdBases)], typ == 1
+			h.begin(np, ni, verifEnvInt("VERIF_CACHE_EXP", 20), verifEnvInt("VERIF_CACHE_NF", 10))
+			for j, op := range ops {
+				h.do(op, i+j)
+			}
 		}
 	}
+	h.base, h.clus = 0, false
 }
 
 // nonPos: only the histories validated one by one ask for expiries that are not positive
@@ -601,6 +668,10 @@ func (h *verifCacheSqlH) randomOp() {
 	if h.ni > 0 {
 		i += h.rnd.Intn(h.ni)
 	}
+	if !h.w.Down && h.rnd.Intn(12) == 0 { // an outage that begins at a command boundary inside the next read / write
+		h.cut = 1 + h.rnd.Intn(4)
+	}
+	defer func() { h.cut = 0 }()
 	switch x := h.rnd.Intn(100); {
 	case x < 18:
 		h.take(p, h.rnd.Intn(9) == 0, h.rnd.Intn(14) == 0, h.rnd.Intn(2))
@@ -683,7 +754,10 @@ func (h *verifCacheSqlH) randomOp() {
 // retries), followed by a store that stays up for the cleaner's whole schedule. No stale entry is read.
 func (h *verifCacheSqlH) retryScenarios() {
 	h.kfOK = false
-	for sc := 0; sc < 2; sc++ {
+	defer func() { h.clus, h.base = false, 0 }()
+	for sc := 0; sc < 4; sc++ {
+		h.clus, h.base = sc >= 2, verifCacheIdBases[sc%len(verifCacheIdBases)]
+		sc := sc % 2
 		h.begin(2, 1, 0, 0) // default expiries: nothing expires while the cleaner's schedule runs
 		h.write([][]int{{0, 1}, {1, 2}, {2, 0}}, nil, false, sc)
 		h.take(0, false, false, 0)
@@ -709,7 +783,9 @@ func TestVerifCacheSqlcRandom(t *testing.T) {
 	for x := 0; x < n; x++ {
 		cfg := verifCacheConfigs[h.rnd.Intn(len(verifCacheConfigs))]
 		h.kfOK = x < verifEnvInt("VERIF_CACHE_KFHIST", 0)
+		h.clus, h.base = h.rnd.Intn(3) == 0, verifCacheIdBases[h.rnd.Intn(len(verifCacheIdBases))]
 		h.begin(1+h.rnd.Intn(3), h.rnd.Intn(3), cfg[0], cfg[1])
+		h.clus = false
 		for j := 0; j < length; j++ {
 			h.randomOp()
 			if h.w.Down && h.rnd.Intn(4) == 0 {
@@ -728,6 +804,9 @@ func TestVerifCacheSqlcRandom(t *testing.T) {
 				}
 			}
 		case 3:
+			if h.w.Cluster { // (a cluster-type client spends seconds of real time re-discovering a dead topology)
+				break
+			}
 			h.w.Kill()
 			for j := 0; j < 4; j++ {
 				h.randomOp()
@@ -786,7 +865,7 @@ func (h *verifCacheSqlH) phase(k, n int, plan []bool) {
 				if dbf {
 					err = verifCacheErrDb
 				} else {
-					err = conn.QueryRow(v, "row", k)
+					err = conn.QueryRow(v, "row", h.base+k)
 				}
 				h.w.Raw(map[string]any{"e": "qend", "q": int(qid), "k": k, "dbf": dbf})
 				return err
@@ -841,4 +920,135 @@ func TestVerifCacheSqlcConc(t *testing.T) {
 			h.take(k, false, false, ph)
 		}
 	}
+}
+
+// flow runs n concurrent callers; each makes m calls, one after the other: QueryRow on a primary key or
+// QueryRowIndex on an index key (which goes on to the primary key it finds). Every query waits for the driver.
+// plan[i]: the i-th query of the flow fails.
+func (h *verifCacheSqlH) flow(n, m int, plan []bool) {
+	entered := make(chan struct{}, 4*n*m)
+	gate := make(chan struct{})
+	done := make(chan struct{}, n)
+	var nth int64
+	gated := func(id, k int, run func() error) error {
+		qid := int(atomic.AddInt64(&h.qs, 1))
+		h.w.Raw(map[string]any{"e": "qstart", "q": qid, "k": k, "id": id})
+		entered <- struct{}{}
+		<-gate
+		i := int(atomic.AddInt64(&nth, 1)) - 1
+		dbf := i < len(plan) && plan[i]
+		var err error
+		if dbf {
+			err = verifCacheErrDb
+		} else {
+			err = run()
+		}
+		h.w.Raw(map[string]any{"e": "qend", "q": qid, "k": k, "dbf": dbf})
+		return err
+	}
+	for g := 0; g < n; g++ {
+		keys := make([]int, m)
+		for j := range keys {
+			if h.ni > 0 && h.rnd.Intn(3) > 0 {
+				keys[j] = h.np + h.rnd.Intn(h.ni)
+			} else {
+				keys[j] = h.rnd.Intn(h.np)
+			}
+		}
+		go func() {
+			for _, k := range keys {
+				id := int(atomic.AddInt64(&h.calls, 1))
+				k := k
+				var row cache.VerifCacheRow
+				var err error
+				h.w.Raw(map[string]any{"e": "rstart", "id": id, "k": k})
+				if k < h.np {
+					err = h.cc.QueryRow(&row, h.w.Key(k), func(conn sqlx.SqlConn, v any) error {
+						return gated(id, k, func() error { return conn.QueryRow(v, "row", h.base+k) })
+					})
+				} else {
+					err = h.cc.QueryRowIndex(&row, h.w.Key(k), h.keyer,
+						func(conn sqlx.SqlConn, v any) (any, error) {
+							if err := gated(id, k, func() error { return conn.QueryRow(v, "idx", k-h.np) }); err != nil {
+								return nil, err
+							}
+							return v.(*cache.VerifCacheRow).Id, nil
+						},
+						func(conn sqlx.SqlConn, v, primary any) error {
+							return gated(id, h.pnum(primary), func() error { return conn.QueryRow(v, "row", verifCacheInt(primary)) })
+						})
+				}
+				r, v := verifCacheClass(err), 0
+				if err == nil {
+					v = row.Ver
+				}
+				h.w.Raw(map[string]any{"e": "rend", "id": id, "r": r, "v": v, "msg": verifCacheMsg(err)})
+			}
+			done <- struct{}{}
+		}()
+	}
+	for left := n; left > 0; {
+		select {
+		case <-entered:
+			for i := 0; i < 30; i++ {
+				runtime.Gosched()
+			}
+			time.Sleep(time.Duration(50+h.rnd.Intn(400)) * time.Microsecond)
+			gate <- struct{}{}
+		case <-done:
+			left--
+		}
+	}
+	h.w.Ev(map[string]any{"e": "obs"})
+}
+
+// TestVerifCacheSqlcFlow: concurrent callers of QueryRow and QueryRowIndex over several rows and unique-index
+// values through the package-level barrier, one call after the other, with row ids of every magnitude
+// (the primary id found by an index load reaches the callers that shared the load through the barrier), on 1, 2
+// and all processors.
+func TestVerifCacheSqlcFlow(t *testing.T) {
+	h := verifCacheSqlSetup(t)
+	procs := runtime.GOMAXPROCS(0)
+	defer runtime.GOMAXPROCS(procs)
+	for i := 0; i < verifEnvInt("VERIF_CACHE_FLOWS", 12); i++ {
+		cfg := verifCacheConfigs[h.rnd.Intn(4)]
+		h.base = verifCacheIdBases[(i+int(verifSeed()))%len(verifCacheIdBases)]
+		np, ni := 1+h.rnd.Intn(2), 1+h.rnd.Intn(2)
+		h.begin(np, ni, cfg[0], cfg[1])
+		runtime.GOMAXPROCS([]int{procs, 1, 2}[i%3])
+		for ph := 0; ph < 2+h.rnd.Intn(2); ph++ {
+			// rows come, change and go, unique values move; the keys concerned are invalidated: everything the
+			// flow reads is uncached again
+			for p := 0; p < np; p++ {
+				if _, ok := h.tab.rows[p]; ok && h.rnd.Intn(4) == 0 {
+					h.write([][]int{{p, -1}}, nil, false, ph)
+				} else {
+					h.ver++
+					h.write([][]int{{p, h.ver}}, nil, false, ph+1)
+				}
+			}
+			for x := np; x < np+ni; x++ {
+				p := h.rnd.Intn(np)
+				if _, ok := h.tab.rows[p]; ok && h.rnd.Intn(4) > 0 {
+					h.write([][]int{{x, p}}, []int{p, x}, false, ph+2)
+				} else {
+					h.write([][]int{{x, -1}}, []int{x}, false, ph+3)
+				}
+			}
+			all := make([]int, 0, np+ni)
+			for k := 0; k < np+ni; k++ {
+				all = append(all, k)
+			}
+			h.del(all)
+			plan := []bool{h.rnd.Intn(4) == 0, h.rnd.Intn(4) == 0, h.rnd.Intn(4) == 0, false}
+			h.flow(3+h.rnd.Intn(verifEnvInt("VERIF_CACHE_G", 5)), 2+h.rnd.Intn(2), plan)
+			for k := 0; k < np; k++ {
+				h.take(k, false, false, ph+k)
+			}
+			for k := np; k < np+ni; k++ {
+				h.index(k, false, false, false, ph+k)
+			}
+		}
+	}
+	h.base = 0
 }
